@@ -216,8 +216,8 @@ fn base_archives() -> Vec<(String, Vec<u8>)> {
         v.push((format!("foreign-leaves-{}", cname(c)), foreign::build(&foreign_leaf_spec(comp_code(c))).bytes));
     }
     v.push(("lib-empty-none".into(), write_lib(&Logical::new(Compression::None), Api::Sync).unwrap()));
-    v.push(("foreign-depth3-none".into(), foreign::build(&Spec { order: 0, gap: 0, root_gap: false, shape: Shape::Depth3, run: 2, offs: Offs::Contiguous, n: 7, meta: 1, comp: 1, base: 0, hv: 0, level_order: false }).bytes));
-    v.push(("foreign-mixed-gzip".into(), foreign::build(&Spec { order: 4, gap: 1, root_gap: false, shape: Shape::Mixed, run: 1, offs: Offs::BackRefs, n: 7, meta: 2, comp: 2, base: 5, hv: 1, level_order: false }).bytes));
+    v.push(("foreign-depth3-none".into(), foreign::build(&Spec { order: 0, gap: 0, root_gap: false, shape: Shape::Depth3, run: 2, offs: Offs::Contiguous, n: 7, meta: 1, comp: 1, base: 0, hv: 0, level_order: false, cv: 0 }).bytes));
+    v.push(("foreign-mixed-gzip".into(), foreign::build(&Spec { order: 4, gap: 1, root_gap: false, shape: Shape::Mixed, run: 1, offs: Offs::BackRefs, n: 7, meta: 2, comp: 2, base: 5, hv: 1, level_order: false, cv: 0 }).bytes));
     let mut l1 = Logical::new(Compression::ZStd);
     l1.tiles.insert(9, b"z".to_vec());
     v.push(("lib-1tile-zstd".into(), write_lib(&l1, Api::Async).unwrap()));
@@ -291,6 +291,25 @@ fn hazards() -> Vec<Case> {
             let mut st = Structured::base(0, comp);
             st.meta = m.into_bytes();
             add(&format!("metadata-nested-{name}-{depth}-c{comp}"), &st, &[]);
+        }
+    }
+    // metadata that is refused (valid JSON but not an object, or not UTF-8) and consists of multi-byte characters: for
+    // every character width and every shift one document, so that ANY fixed byte index up to ~200 at which an error
+    // message might cut a preview lies inside a character in one of them
+    for comp in [1u8, 2] {
+        for (wname, ch) in [("2-byte", "\u{e9}"), ("3-byte", "\u{20ac}"), ("4-byte", "\u{1F600}")] {
+            for shift in 0..ch.len() {
+                for (kind, open, close) in [("string", "\"", "\""), ("array", "[\"", "\"]")] {
+                    let mut st = Structured::base(0, comp);
+                    st.meta = format!("{open}{}{}{close}", "a".repeat(shift), ch.repeat(80)).into_bytes();
+                    add(&format!("metadata-non-object-{kind}-{wname}-shift{shift}-c{comp}"), &st, &[]);
+                }
+            }
+        }
+        for (name, raw) in [("lone-lead-byte", &b"\"\xC3\""[..]), ("truncated-3-byte", &b"{\"a\":\"\xE2\x82\"}"[..]), ("ff-bytes", &b"[\"\xFF\xFE\"]"[..]), ("overlong-nul", &b"{\"\xC0\x80\":1}"[..])] {
+            let mut st = Structured::base(0, comp);
+            st.meta = raw.to_vec();
+            add(&format!("metadata-not-utf8-{name}-c{comp}"), &st, &[]);
         }
     }
     // leaf pointer cycles and chains (uncompressed so that lengths can be made self-consistent)
